@@ -696,7 +696,8 @@ pub fn run(tier: Tier) -> i32 {
     };
     let specs = corpus_specs();
     let ms = merges();
-    let corpus = run_stage_opt("corpus-merges", corpus_count(&specs), wall_cap, &mut total, &|i| corpus_scenario(i, &specs, &ms), &exec, &[1234], 16, true);
+    let (a_runs, b_runs) = (gen::scaled(a_runs), gen::scaled(b_runs));
+    let corpus = run_stage_opt("corpus-merges", if gen::skip_fixed() { 1 } else { corpus_count(&specs) }, wall_cap, &mut total, &|i| corpus_scenario(i, &specs, &ms), &exec, &[1234], 16, true);
     let mut stages_owned: Vec<StageOut> = vec![corpus];
     if stages_owned[0].found.is_none() {
         stages_owned.push(run_stage_opt("stageA", a_runs, wall_cap, &mut total, &|i| generate(&mut Rng::new(run_seed(c.seed, PROP, "stageA", i)), tier, 0), &exec, &[0], 20, true));
@@ -708,7 +709,7 @@ pub fn run(tier: Tier) -> i32 {
     let mut violations = conclude(&total, &stages);
     // stage D: two separately started processes (different PID, ASLR, start time, worker count)
     let mut stage_d = json!({"status": "skipped"});
-    if violations == 0 {
+    if violations == 0 && !gen::fast() {
         let tn = if tier == Tier::Quick { "quick" } else { "thorough" };
         match (spawn_child(c.seed, tn, 1), spawn_child(c.seed, tn, c.jobs.max(2))) {
             (Ok(a), Ok(b)) => {
@@ -732,7 +733,7 @@ pub fn run(tier: Tier) -> i32 {
     // stage C: Miri
     let mut stage_c = json!({"status": "skipped"});
     let mut miri_ok = true;
-    if violations == 0 {
+    if violations == 0 && !gen::fast() {
         let (j, viol_path, ok) = miri_stage(tier, c.seed);
         stage_c = j;
         miri_ok = ok;
